@@ -182,7 +182,7 @@ class Pool:
 
 class HarnessSpec:
     def __init__(self, name, what, functions, bounds, timeout_s=600, mem_gb=12, role=None,
-                 expect_panic=False, stubs=False):
+                 expect_panic=False, stubs=False, aux=False):
         self.name = name  # fully qualified, e.g. c02::c02_probe_n3
         self.what = what
         self.functions = functions
@@ -192,6 +192,9 @@ class HarnessSpec:
         self.role = role or name
         self.expect_panic = expect_panic
         self.stubs = stubs
+        # auxiliary obligation: stronger than the property; its failure is recorded ('aux_not_established') but is
+        # neither a violation nor a reason for an inconclusive verdict
+        self.aux = aux
 
 
 def classify(checks, verdict):
@@ -252,6 +255,10 @@ def run_one(pool, spec):
                               witness={"documented_panic_reachable": True}, role=spec.role), text
         return Obligation(spec.name, "E1-kani", spec.what, "inconclusive", wall,
                           detail="documented rejection not reachable (precondition harness vacuous?)",
+                          functions=spec.functions, bounds=bounds, role=spec.role), text
+    if relevant and spec.aux:
+        detail = "; ".join("%s [%s] %s" % (c["name"], c["status"], c["desc"]) for c in relevant[:4])
+        return Obligation(spec.name, "E1-kani", spec.what, "aux_not_established", wall, detail=detail,
                           functions=spec.functions, bounds=bounds, role=spec.role), text
     if relevant:
         detail = "; ".join("%s [%s] %s @ %s" % (c["name"], c["status"], c["desc"], c["loc"])
